@@ -270,7 +270,25 @@ type crlCase struct {
 	Scribble   bool // overwrite the template right after CreateRevocationList returns
 }
 
+var maxTimeOff = time.Date(9999, 12, 31, 23, 59, 59, 0, time.UTC).Unix() - refInstant.Unix()
+
+// revTime: the revocation time of an entry; the zero time.Time is documented
+// to be refused ("entry with zero RevocationTime field"), so it is moved by a second.
+func revTime(c crlCase, e crlEntrySpec) time.Time {
+	t := toTime(e.TimeOff, c.TZ, c.Nanos)
+	if t.IsZero() {
+		t = t.Add(time.Second)
+	}
+	return t
+}
+
 func crlTemplate(c crlCase) *x509.RevocationList {
+	if c.ThisOff+c.NextDelta > maxTimeOff {
+		c.NextDelta = 0 // DER cannot say year 10000
+	}
+	if toTime(c.ThisOff+c.NextDelta, c.TZ, c.Nanos).IsZero() {
+		c.NextDelta = 1 // the zero time.Time means "no nextUpdate" to the optional field
+	}
 	t := &x509.RevocationList{
 		SignatureAlgorithm: sigAlgFor(c.KT, c.AlgVariant),
 		Number:             new(big.Int).SetBytes(c.Number),
@@ -281,10 +299,10 @@ func crlTemplate(c crlCase) *x509.RevocationList {
 	for _, e := range c.Entries {
 		if c.Deprecated {
 			t.RevokedCertificates = append(t.RevokedCertificates, pkix.RevokedCertificate{
-				SerialNumber: new(big.Int).SetBytes(e.Serial), RevocationTime: toTime(e.TimeOff, c.TZ, c.Nanos), Extensions: toExts(e.Extra)})
+				SerialNumber: new(big.Int).SetBytes(e.Serial), RevocationTime: revTime(c, e), Extensions: toExts(e.Extra)})
 		} else {
 			t.RevokedCertificateEntries = append(t.RevokedCertificateEntries, x509.RevocationListEntry{
-				SerialNumber: new(big.Int).SetBytes(e.Serial), RevocationTime: toTime(e.TimeOff, c.TZ, c.Nanos), ReasonCode: e.Reason, ExtraExtensions: toExts(e.Extra)})
+				SerialNumber: new(big.Int).SetBytes(e.Serial), RevocationTime: revTime(c, e), ReasonCode: e.Reason, ExtraExtensions: toExts(e.Extra)})
 		}
 	}
 	return t
@@ -385,7 +403,7 @@ func checkCRL(c crlCase, r *h.Rec) error {
 	for i, e := range c.Entries {
 		g := got.RevokedCertificateEntries[i]
 		wantSerial := new(big.Int).SetBytes(e.Serial)
-		wantTime := toTime(e.TimeOff, c.TZ, c.Nanos).Truncate(time.Second)
+		wantTime := revTime(c, e).Truncate(time.Second)
 		if err := checkTimeEncoding(fmt.Sprintf("entry %d RevocationTime", i), revEls[i], wantTime); err != nil {
 			return fail("%v", err)
 		}
